@@ -195,8 +195,10 @@ fn run_decode_case(w: &mut W, rng: &mut Rng, version: u16, n: usize, st: &mut Fi
     }
     // shorter buffers: an error, never a packet with fewer or invented records
     if do_cuts && n <= 3 {
+        // every prefix on ONE parser (V5/V7 decoding is stateless: whatever an error path leaves
+        // behind must not show later), then the complete packet once more
+        let mut s2 = Sut::new(1);
         for cut in 0..wire.len() {
-            let mut s2 = Sut::new(1);
             let r = s2.parse(0, &wire[..cut]);
             w.rep.count("cut_points", 1);
             let bad = r.iter().any(|e| !e.is_error());
@@ -205,6 +207,43 @@ fn run_decode_case(w: &mut W, rng: &mut Rng, version: u16, n: usize, st: &mut Fi
                 let d = div(&format!("v{}/truncated", version), "accepted", format!("prefix of {} of {} bytes returned {:?}", cut, wire.len(), r.iter().map(crate::observe::kind).collect::<Vec<_>>()));
                 w.rep.violation(sig("C03", &d), &d, s2.replay_json());
                 return;
+            }
+        }
+        let res = s2.parse(0, &wire);
+        let verdict = match res.as_slice() {
+            [p] => check_fixed(&wire, p, st).map(|_| ()),
+            r => Err(div("fixed", "elements", format!("complete packet after its own prefixes returned {:?}", r.iter().map(crate::observe::kind).collect::<Vec<_>>()))),
+        };
+        if let Err(mut d) = verdict {
+            d.unit = format!("after-truncated/{}", d.unit);
+            w.rep.violation(sig("C03", &d), &d, json!({"note": "all proper prefixes of the packet in increasing length, then the packet, on one parser", "packet_hex": crate::util::hex(&wire)}));
+            return;
+        }
+        // complementary cut: a longer packet cut so that exactly len(wire) bytes are missing, then
+        // this complete packet in the next call - it is a packet of its own, not the missing tail
+        if n >= 1 {
+            let extra = 1 + rng.usize(3);
+            let longer = gen_case(rng, version, n + extra).wire();
+            let mut s3 = Sut::new(1);
+            if longer.len() > wire.len() {
+                let r1 = s3.parse(0, &longer[..longer.len() - wire.len()]);
+                let r2 = s3.parse(0, &wire);
+                w.rep.count("complementary_cuts", 1);
+                let v = if !(r1.len() == 1 && r1[0].is_error()) {
+                    Err(div(&format!("v{}/truncated", version), "accepted", format!("packet of {} bytes cut at {} returned {:?}", longer.len(), longer.len() - wire.len(), r1.iter().map(crate::observe::kind).collect::<Vec<_>>())))
+                } else {
+                    match r2.as_slice() {
+                        [p] => check_fixed(&wire, p, st).map(|_| ()).map_err(|mut d| {
+                            d.unit = format!("after-truncated/{}", d.unit);
+                            d
+                        }),
+                        r => Err(div("after-truncated/fixed", "elements", format!("complete packet in the call after a truncated one returned {:?}", r.iter().map(crate::observe::kind).collect::<Vec<_>>()))),
+                    }
+                };
+                if let Err(d) = v {
+                    w.rep.violation(sig("C03", &d), &d, s3.replay_json());
+                    return;
+                }
             }
         }
     }
@@ -523,6 +562,7 @@ fn run_export_case(w: &mut W, rng: &mut Rng, version: u16, n: usize) {
 fn run_accepted_case(w: &mut W, rng: &mut Rng) {
     let mut sut;
     let ops: Vec<(usize, Vec<u8>)>;
+    let mut hist: Option<super::common::History> = None;
     if rng.chance(1, 2) {
         // a V5/V7 packet cut on / next to a record boundary or anywhere, alone or after a packet
         let version = if rng.chance(1, 2) { 5 } else { 7 };
@@ -543,18 +583,36 @@ fn run_accepted_case(w: &mut W, rng: &mut Rng) {
         } else {
             vec![]
         };
-        buf.extend_from_slice(&wire[..cut.min(wire.len())]);
         sut = Sut::new(1);
-        ops = vec![(0, buf)];
+        if rng.chance(1, 3) {
+            // complementary cut: the next call brings a complete packet that is exactly as long as
+            // what the truncated one was missing (it is a packet of its own, not the missing tail)
+            let nb = rng.usize(n);
+            let b = gen_case(rng, version, nb).wire();
+            if b.len() < wire.len() {
+                buf.extend_from_slice(&wire[..wire.len() - b.len()]);
+                ops = vec![(0, buf), (0, b)];
+            } else {
+                buf.extend_from_slice(&wire[..cut.min(wire.len())]);
+                ops = vec![(0, buf)];
+            }
+        } else {
+            buf.extend_from_slice(&wire[..cut.min(wire.len())]);
+            ops = vec![(0, buf)];
+        }
         w.rep.count("accepted_family.cut_buffers", 1);
     } else {
         let h = super::common::hostile_history(rng, &w.pools, &w.corpus);
         sut = Sut::new(0);
         sut.parsers = super::common::make_parsers(&h);
-        ops = h.ops;
+        ops = h.ops.clone();
+        hist = Some(h);
         w.rep.count("accepted_family.hostile_histories", 1);
     }
-    for (p, buf) in &ops {
+    for (i, (p, buf)) in ops.iter().enumerate() {
+        if let Some(h) = &hist {
+            h.reconfigure(i, &mut sut);
+        }
         let res = match std::panic::catch_unwind(std::panic::AssertUnwindSafe(|| sut.parse(*p, buf))) {
             Ok(r) => r,
             Err(_) => {
